@@ -217,3 +217,8 @@ Proof.
   intros rr es. unfold rrun_sel, rrun. generalize rstate0. induction es as [|e t IH]; intro s; [reflexivity|].
   cbn [fold_left]. rewrite rstep_sel_eq. apply IH.
 Qed.
+
+(* ---- Reactor._connect as translated: a connection starts with nothing queued and nothing unsent ------------------------ *)
+Theorem connect_fresh_src : forall r, outbox (Reactor_connect r) = [] /\ buffer (Reactor_connect r) = [] /\
+  sent (Reactor_connect r) = sent r /\ puts (Reactor_connect r) = puts r.
+Proof. intro r. unfold Reactor_connect, set_outbox, set_buffer. cbn. auto. Qed.
